@@ -107,8 +107,25 @@ class Twice(flow.Operator):
 
 
 
+class Handmade(flow.Operator):
+    """A mapper written by hand against the public API: it keeps ONE builder object and uses it for every expansion (the
+    wrap operators clone theirs), so when its scope is expanded repeatedly (per fold, twice, ...) distinct worker groups
+    - each with its own persisted state - carry the very same builder object.  Semantics = ``wrap.Operator.mapper``."""
+
+    def __init__(self, builder: 'flow.Builder'):
+        self._builder = builder
+
+    def compose(self, scope: 'flow.Composable') -> 'flow.Trunk':
+        left = scope.expand()
+        apply = flow.Worker(self._builder, 1, 1)
+        train = apply.fork()
+        if apply.stateful:
+            apply.fork().train(left.train.publisher, left.label.publisher)
+        return left.extend(apply, train)
+
+
 def symcls():
-    return {'SymCV': SymCV, 'SymFolds': SymFolds, 'SymDumper': SymDumper, 'Twice': Twice}
+    return {'SymCV': SymCV, 'SymFolds': SymFolds, 'SymDumper': SymDumper, 'Twice': Twice, 'Handmade': Handmade}
 
 
 # ------------------------------------------------------------------------------------------------ generation
@@ -140,6 +157,8 @@ class Gen:
             node['train'] = self.actor()
         if style in ('label', 'mapper+label', 'apply+label'):
             node['label'] = self.actor()
+        if style == 'mapper' and self.rng.random() < 0.3:
+            node['handmade'] = True  # same semantics through a hand-written operator sharing one builder object
         return node
 
     def operator(self, depth: int, scoped_ok: bool = True) -> dict:
@@ -190,7 +209,7 @@ def signature(expr: dict) -> str:
         return f'({signature(expr["left"])}>>{signature(expr["right"])})'
     if expr['op'] == 'wrap':
         flags = ''.join(('S' if expr[k]['stateful'] else 's') if expr[k] else '-' for k in ('apply', 'train', 'label'))
-        return f'W[{expr["style"]}:{flags}]'
+        return f'W[{expr["style"]}{"!" if expr.get("handmade") else ""}:{flags}]'
     if expr['op'] == 'mapreduce':
         return 'MR[' + ''.join('S' if m['stateful'] else 's' for m in expr['mappers']) + ']'
     if expr['op'] == 'fullstack':
@@ -211,6 +230,8 @@ def build(expr: dict, log: typing.Optional[str] = None):
             return symbolic.Stateful if spec['stateful'] else symbolic.Stateless
 
         a, t, l = expr['apply'], expr['train'], expr['label']
+        if expr.get('handmade'):
+            return klass['Handmade'](symbolic.builder(a['name'], a['stateful'], 1, log))
         operator = None
         if a and t and a['name'] == t['name']:
             if expr['style'] == 'chained':
